@@ -97,3 +97,28 @@ claim("C27",
       "who-may-reference scan over every call site and global reference of the package (with a positive control), field-store provenance of the engine logger",
       "Silence by default: no function of the package references os.Stdout/os.Stderr, fmt.Print*, print/println, package log or slog's package-level logging functions; the logger field is written only by the constructor (config.Logger on its non-nil edge, slog.New(slog.DiscardHandler) otherwise) and every slog call goes through it. Runtime panics and third-party debug output are excluded.",
       TB)
+
+claim("C20",
+      "lock-discipline and path/event dataflow on Next/finish/terminate/Close, channel-operation scan of the query region, ordering dataflow on the teardown goroutine",
+      "The cursor's terminal state through structure: err is written only under mu on the not-yet-finalized edge with finalized set (first finalizer wins); Next returns false only after finish/terminate or the iterDone test, finish marks iteration done and cancels; Close is sync.Once-guarded, cancels before waiting for done and returns nil; terminate reads errors only after the pipeline stopped and wraps the caller's context error with %w; Results' shared fields are accessed under mu; every channel operation in query goroutines is abandonable (Done() case or default; one named exception); teardown runs in the order fileWorkers.Wait → close(blockJobs) → blockWorkers.Wait → closeAll → markWorkersDone. Interleavings are not enumerated.",
+      TB)
+
+claim("C21",
+      "counter-domain and pending/kill dataflow with closure summaries (handles, references), goroutine/WaitGroup pairing scan, typestate of querySlot, guarded-by table of the handle pool",
+      "Release of query resources on every path: exactly one put/discard after each successful acquire (through the deferred health-flag closure or directly), every opened read handle closed or handed to a checked caller, every retain matched by a release or a successful job hand-off whose receiver defers the release first, every query goroutine paired with Add(1)/deferred Done (teardown goroutine excepted by name), every worker deferring slot.release with held tracking the semaphore token, pool fields under mu and no store I/O under the pool lock. That a store's Close really frees the handle is assumed.",
+      TB)
+
+claim("C22",
+      "typestate (slot held/released) dataflow on the filter pass, the block scan, deliver and the file worker; capacity provenance; channel-ownership scan of the semaphore",
+      "The concurrency budget through structure: the worker's slot is must-held at every DataStore read site of the query region, released before the blocking row-channel send and before block-job dispatch, success of a delivery only with the slot held again; the semaphore's capacity is the validated MaxQueryConcurrency, only acquire sends on it, only release receives, and every slot is built on the engine-wide semaphore. Counts of in-progress reads under real schedules are not measured.",
+      TB)
+
+claim("C23",
+      "per-iteration counter dataflow (counter reset on entering a loop iteration), early-exit classification, composite-literal field checks, aggregation-edge checks in Stats",
+      "Exactly-once block statistics: one deferred stats record per scan job and no other; in the filter pass every iteration accounts for its block exactly once and every early exit is a cancellation or records all remaining blocks; skipped/unread entries carry no processed rows/bytes; scan counters advance once per scanned row and feed the scan's entry; Stats counts skipped xor processed, sums per-block values and reports the delivery counter. Numeric equality on real data is not decided.",
+      TB)
+
+claim("C24",
+      "forbid/require reachability rules in the SSA dataflow (may-facts at dispatch and I/O sites), who-may-call/send scans, extent provenance",
+      "Effectiveness of pruning: no file-job dispatch from the negative file-level edge or an empty prefilter result; block-filter I/O only with bloom conditions and sections to read; a block whose filters were read is scanned only on the survived edge; row data read only by the block scan fed only from the survivor loop; scan and filter reads use the block's own declared extents after validation. Request counts on real layouts are left to the existing tests.",
+      TB)
